@@ -97,6 +97,106 @@ def _ax():
 
 AXIOMS = _ax()
 
+# --- big-endian integer encoding with a symbolic number of bytes (codec layer) ---
+# Intended model: pow256(n) = 256**n for n >= 0; s_be(x, n)[i] = floor(x / 256**(n-1-i)) mod 256
+# (for every integer x); s_val(a) = sum a[i] * 256**(len(a)-1-i).  All axioms below are true in it.
+pow256 = z3.Function('pow256', I, I)
+s_val = z3.Function('s_val', Seq, I)               # big-endian value of a sequence
+BE_EXPLICIT = 8                                    # lengths with element-wise definitions
+
+
+def _be_axioms():
+    a = z3.Const('a', Seq)
+    x, n = z3.Ints('x n')
+    A = []
+    for k in range(0, 17):
+        A.append(pow256(z3.IntVal(k)) == z3.IntVal(256 ** k))
+    A.append(z3.ForAll([n], z3.Implies(n >= 0, pow256(n) >= 1), patterns=[pow256(n)]))
+    A.append(z3.ForAll([n], z3.Implies(n >= 17, pow256(n) >= z3.IntVal(256 ** 17)), patterns=[pow256(n)]))
+    for k in range(0, BE_EXPLICIT + 1):
+        kk = z3.IntVal(k)
+        t = s_be(x, kk)
+        A.append(z3.ForAll([x], z3.And([slen(t) == k] +
+                                       [sat(t, i) == (x / z3.IntVal(256 ** (k - 1 - i))) % 256 for i in range(k)]),
+                           patterns=[t]))
+        tot = z3.IntVal(0)
+        for i in range(k):
+            tot = tot + sat(a, i) * z3.IntVal(256 ** (k - 1 - i))
+        A.append(z3.ForAll([a], z3.Implies(slen(a) == k, s_val(a) == tot), patterns=[s_val(a)]))
+    # decode(encode(x)) == x when x fits
+    A.append(z3.ForAll([x, n], z3.Implies(z3.And(n >= 0, 0 <= x, x < pow256(n)), s_val(s_be(x, n)) == x),
+                       patterns=[s_be(x, n)]))
+    # range of a decoded byte string, and encode(decode(a)) == a
+    A.append(z3.ForAll([a], z3.Implies(isb(a), z3.And(0 <= s_val(a), s_val(a) < pow256(slen(a)))),
+                       patterns=[s_val(a)]))
+    # stated element-wise on purpose: a Seq-level equality here would identify sequences that agree on
+    # 0..len-1 but not on out-of-range `sat` terms (s_upd at an out-of-range index) -> inconsistent
+    i = z3.Int('i')
+    A.append(z3.ForAll([a, i], z3.Implies(z3.And(isb(a), 0 <= i, i < slen(a)),
+                                          sat(s_be(s_val(a), slen(a)), i) == sat(a, i)),
+                       patterns=[sat(s_be(s_val(a), slen(a)), i)]))
+    # s_val depends only on the length and the in-range elements (skolemised extensionality, witness s_diff)
+    b = z3.Const('b', Seq)
+    d = s_diff(a, b)
+    A.append(z3.ForAll([a, b], z3.Or(s_val(a) == s_val(b), slen(a) != slen(b),
+                                     z3.And(0 <= d, d < slen(a), sat(a, d) != sat(b, d))),
+                       patterns=[z3.MultiPattern(s_val(a), s_val(b))]))
+    return A
+
+
+AXIOMS.extend(_be_axioms())
+
+
+def ext_pair_instances(formulas, pairs, limit=150):
+    """pairs: list of (f_name, pos, g_name[, gpos]).  For every ground application
+    f(.., X, ..) (X at `pos`) and every ground application G = g(...) the
+    instance `X == Y or observably different`, Y being G itself (gpos None) or
+    G's argument at gpos.  Lets axioms such as Dec(k,s,Enc(k,s,p)) == p fire
+    when the arguments are only extensionally equal."""
+    if not pairs:
+        return []
+    pairs = [tuple(p) + (None,) * (4 - len(p)) for p in pairs]
+    fn_names = set(p[0] for p in pairs)
+    gn_names = set(p[2] for p in pairs)
+    fapps, gapps = {}, {}
+    seen = set()
+    cache = {}
+
+    def walk(e):
+        k = e.get_id()
+        if k in seen:
+            return
+        seen.add(k)
+        if z3.is_quantifier(e):
+            walk(e.body())
+            return
+        if z3.is_app(e):
+            nm = e.decl().name()
+            if not _has_var(e, cache):
+                if nm in fn_names:
+                    fapps.setdefault(nm, {})[e.get_id()] = e
+                if nm in gn_names:
+                    gapps.setdefault(nm, {})[e.get_id()] = e
+            for c in e.children():
+                walk(c)
+    for f in formulas:
+        walk(f)
+    out = []
+    done = set()
+    for (fn, pos, gn, gpos) in pairs:
+        for fa in fapps.get(fn, {}).values():
+            x = fa.arg(pos)
+            for ga in gapps.get(gn, {}).values():
+                y = ga if gpos is None else ga.arg(gpos)
+                key = (x.get_id(), y.get_id())
+                if x.get_id() == y.get_id() or key in done:
+                    continue
+                done.add(key)
+                out.append(ext_witness_eq(x, y))
+                if len(out) >= limit:
+                    return out
+    return out
+
 
 def _has_var(e, cache):
     k = e.get_id()
@@ -153,6 +253,39 @@ def ext_instances(formulas, funcs, limit=300):
                 if len(out) >= limit:
                     return out
     return out
+
+
+def seq_eq_atoms_witnesses(formulas, limit=200):
+    """For every ground equality atom between sequences occurring in the
+    formulas, the sound instance `a == b or observably different`.  Needed
+    because native disequality of two sequence terms does not by itself give
+    the solver an index at which they differ."""
+    out = []
+    seen = set()
+    done = set()
+    cache = {}
+
+    def walk(e):
+        k = e.get_id()
+        if k in seen:
+            return
+        seen.add(k)
+        if z3.is_quantifier(e):
+            return
+        if z3.is_app(e):
+            if e.decl().kind() in (z3.Z3_OP_EQ, z3.Z3_OP_DISTINCT) and e.num_args() == 2 and e.arg(0).sort() == Seq:
+                a, b = e.arg(0), e.arg(1)
+                key = (a.get_id(), b.get_id())
+                if key not in done and not _has_var(e, cache):
+                    done.add(key)
+                    out.append(ext_witness_eq(a, b))
+            for c in e.children():
+                walk(c)
+    for f in formulas:
+        walk(f)
+        if len(out) >= limit:
+            break
+    return out[:limit]
 
 
 def seq_eq_goal(x, y, tag=[0]):
@@ -234,7 +367,12 @@ def axioms_consistency_selftest(extra=()):
     big = s_single(z3.IntVal(300))
     s.add(slen(x) == 3, isb(x), z3.Not(isb(y)), slen(y) == 2)
     terms = [s_concat(x, y), s_concat(y, big), s_slice(x, z3.IntVal(1), z3.IntVal(2)), s_rep(z3.IntVal(7), z3.IntVal(4)),
-             s_upd(x, z3.IntVal(0), z3.IntVal(9)), s_xor(x, x), s_be(z3.IntVal(258), z3.IntVal(2))]
+             s_upd(x, z3.IntVal(0), z3.IntVal(9)), s_xor(x, x), s_be(z3.IntVal(258), z3.IntVal(2)),
+             s_be(z3.IntVal(-5), z3.IntVal(2)), s_be(z3.IntVal(70000), z3.IntVal(2)), s_be(s_val(x), z3.IntVal(3)),
+             s_be(s_val(y), slen(y)), s_be(z3.Int('w_v'), z3.Int('w_n')), s_single(s_val(s_concat(x, y)))]
+    s.add(pow256(z3.Int('w_n')) >= 0)
+    for w in (s_upd(s_empty, z3.IntVal(0), z3.IntVal(0)), s_upd(s_empty, z3.IntVal(0), z3.IntVal(255))):
+        terms.append(s_be(s_val(w), slen(w)))       # out-of-range update: must not be identified by any axiom
     for t in terms:
         s.add(slen(t) >= 0)
         s.add(sat(t, 0) == sat(t, 0))
@@ -336,61 +474,121 @@ class Verdict:
 STATS = {'z3_queries': 0, 'z3_s': 0.0, 'cvc5_queries': 0, 'cvc5_s': 0.0}
 
 
+_AX_SYMS = [None, -1]
+
+
+def _symbols(e, acc, seen):
+    """names of the uninterpreted symbols of e; returns False when e contains a quantifier"""
+    ok = True
+    stack = [e]
+    while stack:
+        t = stack.pop()
+        k = t.get_id()
+        if k in seen:
+            continue
+        seen.add(k)
+        if z3.is_quantifier(t):
+            ok = False
+            stack.append(t.body())
+            continue
+        if z3.is_app(t):
+            d = t.decl()
+            if d.kind() == z3.Z3_OP_UNINTERPRETED:
+                acc.add(d.name())
+            if t.sort().kind() == z3.Z3_UNINTERPRETED_SORT:
+                acc.add('sort:' + t.sort().name())
+            stack.extend(t.children())
+    return ok
+
+
+def independent_of_axioms(formulas):
+    """True when the formulas are quantifier-free and mention no symbol (function, constant or sort)
+    that occurs in AXIOMS.  Then AXIOMS, being consistent (axioms_consistency_selftest) and only
+    constraining their own symbols, can be dropped: validity is unchanged and a `sat` answer is a
+    genuine counterexample (finite-domain table facts, pyvc/finite.py)."""
+    if _AX_SYMS[1] != len(AXIOMS):
+        acc = set()
+        seen = set()
+        for a in AXIOMS:
+            _symbols(a, acc, seen)
+        acc.update(('sort:ISeq', 'sort:PyVal'))
+        _AX_SYMS[0], _AX_SYMS[1] = acc, len(AXIOMS)
+    acc = set()
+    seen = set()
+    for f in formulas:
+        if not _symbols(f, acc, seen):
+            return False
+    return not (acc & _AX_SYMS[0])
+
+
 def solve(assumptions, goal, timeout_ms=10000, extra_axioms=(), want_model=True, use_cvc5=True):
     """Check validity of (AXIOMS and assumptions) => goal.
     Returns (verdict, model_or_None, info)."""
-    s = z3.Solver()
-    s.set('timeout', int(timeout_ms))
-    s.set('smt.mbqi', False)         # pattern-based instantiation only: keeps 'sat' answers honest as 'unknown'
-    for a in AXIOMS:
-        s.add(a)
-    for a in extra_axioms:
-        s.add(a)
-    for a in assumptions:
-        s.add(a)
-    s.add(z3.Not(goal))
-    t0 = time.time()
-    r = s.check()
-    dt = time.time() - t0
-    STATS['z3_queries'] += 1
-    STATS['z3_s'] += dt
-    if r == z3.unsat:
-        return Verdict.PROVED, None, {'backend': 'z3', 's': dt}
-    if r == z3.sat:
-        return Verdict.REFUTED, (s.model() if want_model else None), {'backend': 'z3', 's': dt}
-    # unknown: with quantified axioms and mbqi off z3 answers 'unknown' for
-    # candidate models; retry once with mbqi on to get a definite sat / unsat
-    reason = s.reason_unknown()
-    s2 = z3.Solver()
-    s2.set('timeout', int(timeout_ms))
-    for a in AXIOMS:
-        s2.add(a)
-    for a in extra_axioms:
-        s2.add(a)
-    for a in assumptions:
-        s2.add(a)
-    s2.add(z3.Not(goal))
-    t0 = time.time()
-    r2 = s2.check()
-    dt2 = time.time() - t0
-    STATS['z3_queries'] += 1
-    STATS['z3_s'] += dt2
-    if r2 == z3.unsat:
-        return Verdict.PROVED, None, {'backend': 'z3(mbqi)', 's': dt + dt2}
-    if r2 == z3.sat:
-        return Verdict.REFUTED, (s2.model() if want_model else None), {'backend': 'z3(mbqi)', 's': dt + dt2}
+    if not extra_axioms and independent_of_axioms(list(assumptions) + [goal]):
+        s0 = z3.Solver()
+        s0.set('timeout', int(timeout_ms))
+        for a in assumptions:
+            s0.add(a)
+        s0.add(z3.Not(goal))
+        t0 = time.time()
+        r0 = s0.check()
+        dt0 = time.time() - t0
+        STATS['z3_queries'] += 1
+        STATS['z3_s'] += dt0
+        if r0 == z3.unsat:
+            return Verdict.PROVED, None, {'backend': 'z3(ground)', 's': dt0}
+        if r0 == z3.sat:
+            return Verdict.REFUTED, (s0.model() if want_model else None), {'backend': 'z3(ground)', 's': dt0}
+    # portfolio with escalating time slices: pattern-based instantiation only
+    # (mbqi off: fast on the axiomatised sequence theory) and z3's default
+    # configuration (mbqi on: sometimes proves what e-matching alone misses and
+    # can produce definite models); cheap slices first so that verdicts do not
+    # depend on how busy the machine is.
+    def mk(mbqi):
+        sv = z3.Solver()
+        if not mbqi:
+            sv.set('smt.mbqi', False)
+        for a in AXIOMS:
+            sv.add(a)
+        for a in extra_axioms:
+            sv.add(a)
+        for a in assumptions:
+            sv.add(a)
+        sv.add(z3.Not(goal))
+        return sv
+    stages = [(False, min(timeout_ms, 3000)), (True, min(timeout_ms, 6000)), (False, timeout_ms), (True, timeout_ms)]
+    total = 0.0
     cand = None
-    try:
-        cand = s.model() if want_model else None   # candidate model of the e-matching run
-    except z3.Z3Exception:
-        cand = None
+    reason = None
+    last = None
+    for (mbqi, tmo) in stages:
+        sv = mk(mbqi)
+        sv.set('timeout', int(tmo))
+        t0 = time.time()
+        r = sv.check()
+        dt = time.time() - t0
+        total += dt
+        STATS['z3_queries'] += 1
+        STATS['z3_s'] += dt
+        name = 'z3(mbqi)' if mbqi else 'z3'
+        if r == z3.unsat:
+            return Verdict.PROVED, None, {'backend': name, 's': total}
+        if r == z3.sat:
+            return Verdict.REFUTED, (sv.model() if want_model else None), {'backend': name, 's': total}
+        reason = sv.reason_unknown()
+        last = sv
+        if not mbqi and want_model and cand is None and 'incomplete' in (reason or ''):
+            try:
+                cand = sv.model()          # candidate model of the e-matching run (needs replay to be believed)
+            except z3.Z3Exception:
+                cand = None
     if use_cvc5:
-        v = _cvc5(s2, timeout_ms)
+        v = _cvc5(last, timeout_ms)
         if v == 'unsat':
-            return Verdict.PROVED, None, {'backend': 'cvc5', 's': dt + dt2}
+            return Verdict.PROVED, None, {'backend': 'cvc5', 's': total}
         if v == 'sat':
-            return Verdict.REFUTED, cand, {'backend': 'cvc5', 's': dt + dt2, 'model_from': 'z3-candidate'}
-    return Verdict.UNDECIDED, cand, {'backend': 'z3+cvc5', 's': dt + dt2, 'reason': reason}
+            return Verdict.REFUTED, cand, {'backend': 'cvc5', 's': total, 'model_from': 'z3-candidate'}
+    return Verdict.UNDECIDED, cand, {'backend': 'z3+cvc5', 's': total, 'reason': reason}
 
 
 def _cvc5(solver, timeout_ms):
